@@ -5,7 +5,8 @@
    typing: the kernels take no labels).  The remaining combinations (TOPSIS distances under criteria
    permutation, WPM / FMF, MultiMOORA, ELECTRE, pipelines) are covered by the correspondence only. *)
 From Coq Require Import ZArith QArith List Bool Arith Permutation.
-From SKC Require Import Base.QBool Base.QList Base.QRank Model.Agg Theory.Agg Theory.RankFacts Theory.Invariance.
+From Coq Require Import Reals.
+From SKC Require Import Base.QBool Base.QList Base.QRank Model.Agg Theory.Agg Theory.RankFacts Theory.Invariance Theory.RealClosing.
 Import ListNotations.
 
 (* ---- order of the alternatives -------------------------------------------------------------------- *)
@@ -75,6 +76,26 @@ Theorem C05_topsis_closeness_scale : forall k db dw,
   end.
 Proof. exact similarity_scale_invariant. Qed.
 Print Assumptions C05_topsis_closeness_scale.
+
+(* euclidean TOPSIS, WPM, FMF over the reals: multiplying every weight by c > 0 *)
+Theorem C05_topsis_euclidean_weight_scale : forall (k a c : R),
+  (0 < k)%R -> (0 <= a)%R -> (0 <= c)%R -> (0 < sqrt a + sqrt c)%R ->
+  closeness (k * k * a) (k * k * c) = closeness a c.
+Proof. exact closeness_scale. Qed.
+Print Assumptions C05_topsis_euclidean_weight_scale.
+
+Theorem C05_wpm_weight_scale : forall c w a b, (0 < c)%R ->
+  ((wlog (map (Rmult c) w) a < wlog (map (Rmult c) w) b)%R <-> (wlog w a < wlog w b)%R).
+Proof. exact wpm_weight_scale. Qed.
+Print Assumptions C05_wpm_weight_scale.
+
+(* FMF: every alternative's score moves by the same constant, so every comparison is unchanged *)
+Theorem C05_fmf_weight_scale : forall c objs w a,
+  (0 < c)%R -> Forall (fun x => (0 < x)%R) w -> Forall (fun x => (0 < x)%R) a ->
+  length w = length objs -> length a = length objs ->
+  RealClosing.fmf objs (map (Rmult c) w) a = (RealClosing.fmf objs w a + fmf_shift objs c)%R.
+Proof. exact fmf_weight_scale. Qed.
+Print Assumptions C05_fmf_weight_scale.
 
 Example C05_example :
   dot [1; 2; 3] [4; 5; 6] == dot [3; 1; 2] [6; 4; 5] /\
